@@ -25,6 +25,7 @@
 (*   Code0Steps/Code0Syncs    the implementation before any fix (9124e75):                         *)
 (*        InsertSpin (F-C06-b), WriteTablesInPlace (F-C06-a), CompactStale (F-C06-d),              *)
 (*        AddAppendFixKeyWrongKey (F-C06-e), AddAppendNoCheck                                      *)
+(*   hypothetical (seeded changes, never in the code): CompactKeepsCursor, CompactSkipsEmpty       *)
 (* `devs` records which deviation changed the outcome of the behaviour so far.  Gen_MpqHashTable   *)
 (* runs the Code machine to generate histories and to predict what the real code will do.          *)
 (*                                                                                                 *)
@@ -50,6 +51,7 @@ CONSTANTS H,          \* number of hash slots
 LF   == "(listfile)"
 AT   == "(attributes)"
 None == "none"
+EmptyTok == "empty"      \* the content of length 0 (a content VALUE like any other; its stored form occupies no bytes)
 \* tokens of a file whose bytes are not the ones that were stored, tagged with the cause:
 \* "corrupt:<cause>" reads as garbage, "corrupt!:<cause>" (stored form compressed) fails to read
 Causes    == {"overrun", "fixkey", "renkey", "unopenable"}
@@ -463,6 +465,12 @@ CompactKeepsCursor ==
     /\ stale' = {n \in UNames : SessView[n] # None} /\ staleMap' = SessView
     /\ wdirty' = FALSE /\ hsnap' = SessView /\ Finish("ok")
     /\ UNCHANGED <<hcursor, wopen, devs>>
+\* hypothetical deviation (never in the code; a round-4 seeded change): compact() skips every live entry whose stored size is
+\* 0 ("nothing to copy") - a file whose content is the EMPTY byte string legitimately occupies no bytes, so it vanishes.
+\* The empty content is one particular content value (EmptyTok); a block holding it has stored size 0.
+CompactSkipsEmpty ==
+    /\ Unnamed = {} /\ Undecodable = {}
+    /\ CompactTo([n \in UNames |-> IF SessView[n] = EmptyTok THEN None ELSE SessView[n]], 0) /\ UNCHANGED devs
 CodeSteps   == DesignSteps
 CodeSyncs   == Open \/ FlushClean \/ CloseClean \/ FlushRelocate \/ CloseRelocate \/ CompactNow \/ CompactRefuseNow
 \* as coded at b13f4b7 (after the round-1 fixes, before the six round-2 fix commits)
